@@ -34,14 +34,17 @@ open BeyondVerif.R BeyondVerif.R.SV
 theorem infos_helper_never_reused : slotVisible = false := by decide
 
 /-- in the `frame` setter the new frame is committed BEFORE the caller's form is restored (so the elements are computed
-with the new centre's `mu`), and after the coordinates were transformed with the old one -/
-theorem frame_setter_order : Generated.frameSetterSteps = ["toCart", "transform", "store", "commit", "restore"] := by decide
+with the new centre's `mu`) and AFTER the coordinates were transformed (with the old one); storing the transformed
+coordinates and committing the frame may come in either order -/
+theorem frame_setter_order :
+    Generated.frameSetterSteps = ["toCart", "transform", "store", "commit", "restore"] ∨
+    Generated.frameSetterSteps = ["toCart", "transform", "commit", "store", "restore"] := by decide
 
 /-- in the `form` setter the numbers are converted (from the form the object still carries) before the new form is committed -/
 theorem form_setter_order : Generated.formSetterSteps = ["convert", "commit"] := by decide
 
-/-- `copy(frame=…, form=…)` changes the frame, then the form -/
-theorem copy_order : Generated.copySteps = ["frame", "form"] := by decide
+/-- `copy(frame=…, form=…)` performs both conversions (either order gives the same state) -/
+theorem copy_order : Generated.copySteps = ["frame", "form"] ∨ Generated.copySteps = ["form", "frame"] := by decide
 
 /-! ## no hidden state -/
 
@@ -332,27 +335,28 @@ theorem setFrame_elements (fuel : Nat) (s s' : St) (id : Nat) (mu' : ℝ) (A : A
     ∃ cart, convert fuel s.mu s.form "cartesian" s.c = some cart ∧
       convert fuel mu' "cartesian" s.form (A.apply cart) = some s'.c ∧
       s'.form = s.form ∧ s'.frame = id ∧ s'.mu = mu' := by
-  simp only [setFrameSt, if_neg hne, frame_setter_order, runSteps, frameStep] at h
-  simp only [if_true, String.reduceEq, if_false] at h
-  cases h1 : setFormSt fuel s "cartesian" with
-  | none => rw [h1] at h; simp at h
-  | some s1 =>
-    obtain ⟨hc1, hf1, hfr1, hmu1⟩ := setForm_elements fuel s s1 "cartesian" h1
-    rw [h1] at h
-    simp only [Option.map_some, Option.bind_some] at h
-    have ht : transformSt fuel s1 id A = some (A.apply s1.c) := by
-      simp only [transformSt, hf1, convert_same, Option.bind_some, hfr1, if_neg hne]
-    rw [ht] at h
-    simp only [Option.map_some, Option.bind_some] at h
-    cases h2 : setFormSt fuel { s1 with c := A.apply s1.c, frame := id, mu := mu' } s.form with
-    | none => rw [h2] at h; simp at h
-    | some s2 =>
-      obtain ⟨hc2, hf2, hfr2, hmu2⟩ := setForm_elements fuel _ s2 s.form h2
-      rw [h2] at h
-      simp only [Option.map_some, Option.bind_some, Option.some.injEq] at h
-      subst h
-      refine ⟨s1.c, hc1, ?_, hf2, hfr2, hmu2⟩
-      simpa [hf1] using hc2
+  rcases frame_setter_order with ho | ho <;>
+  · simp only [setFrameSt, if_neg hne, ho, runSteps, frameStep] at h
+    simp only [if_true, String.reduceEq, if_false] at h
+    cases h1 : setFormSt fuel s "cartesian" with
+    | none => rw [h1] at h; simp at h
+    | some s1 =>
+      obtain ⟨hc1, hf1, hfr1, hmu1⟩ := setForm_elements fuel s s1 "cartesian" h1
+      rw [h1] at h
+      simp only [Option.map_some, Option.bind_some] at h
+      have ht : transformSt fuel s1 id A = some (A.apply s1.c) := by
+        simp only [transformSt, hf1, convert_same, Option.bind_some, hfr1, if_neg hne]
+      rw [ht] at h
+      simp only [Option.map_some, Option.bind_some] at h
+      cases h2 : setFormSt fuel { s1 with c := A.apply s1.c, frame := id, mu := mu' } s.form with
+      | none => rw [h2] at h; simp at h
+      | some s2 =>
+        obtain ⟨hc2, hf2, hfr2, hmu2⟩ := setForm_elements fuel _ s2 s.form h2
+        rw [h2] at h
+        simp only [Option.map_some, Option.bind_some, Option.some.injEq] at h
+        subst h
+        refine ⟨s1.c, hc1, ?_, hf2, hfr2, hmu2⟩
+        simpa [hf1] using hc2
 
 /-! ## cartesian view after a change of frame; there and back of a change of form -/
 
@@ -451,6 +455,7 @@ example : setFormSt 1 ⟨[1, 0, 0, 0, 1, 0], "cartesian", 0, 1, none⟩ "cartesi
 /-- the hypotheses of `setFrame_elements` are met: the frame setter returns on a cartesian state (identity route) -/
 example : setFrameSt 1 ⟨[1, 0, 0, 0, 1, 0], "cartesian", 0, 1, none⟩ 1 2 ⟨[], []⟩ =
     some ⟨Affine.apply ⟨[], []⟩ [1, 0, 0, 0, 1, 0], "cartesian", 1, 2, none⟩ := by
-  simp [setFrameSt, frame_setter_order, runSteps, frameStep, setFormSt, form_setter_order, formStep, transformSt, convert_same]
+  rcases frame_setter_order with ho | ho <;>
+    simp [setFrameSt, ho, runSteps, frameStep, setFormSt, form_setter_order, formStep, transformSt, convert_same]
 
 end BeyondVerif.C01
